@@ -407,6 +407,45 @@ def term_mentions_local(rv, l):
     return any(True for _ in ops(rv))
 
 
+def is_pure_worklist(body, facts, v):
+    """`v` is a Vec used as nothing but a stack of pending work: only pushed, popped and asked for its size, never moved,
+    returned or iterated; and every loop that pops it does nothing order-sensitive except pushing more work.  The order in
+    which work is pushed then decides the order of visiting, but nothing that is visited in a different order differs."""
+    if v is None or not body.lty(v).startswith('alloc::vec::Vec<'):
+        return False
+    allowed = ('push', 'pop', 'is_empty', 'len', 'new', 'with_capacity', 'drop', 'drop_in_place', 'reserve')
+    pops = []
+    for bb, t in body.calls():
+        for a in t['args']:
+            if op_local(a) is not None and body.op_root(a)[0] == v:
+                if cname(t) not in allowed:
+                    return False
+                if cname(t) == 'pop':
+                    pops.append((bb, t))
+    for bb, _i, st in body.stmts():
+        if st['k'] == 'assign' and 'use' in st['rv'] and op_local(st['rv']['use']) == v and 'move' in st['rv']['use']:
+            return False
+        if st['k'] == 'assign' and 'agg' in st['rv'] and any(op_local(o) == v for o in st['rv']['ops']):
+            return False
+    if not pops:
+        return False
+    loops = body.loops()
+    for pb, pt in pops:
+        inl = [h for h in loops if pb in loops[h]]
+        if not inl:
+            return False
+        h = min(inl, key=lambda x: len(loops[x]))
+        test_bb = pt['ret']
+        eff = loop_effects(body, facts, set(loops[h]) - {test_bb}, pb)
+        for e in eff:
+            if e[0] == 'exit' and e[1] == test_bb:
+                continue
+            if e[0] == 'mutate' and e[3] == v:
+                continue
+            return False
+    return True
+
+
 def classify(body, facts, bb, t, st):
     """returns (verdict 'auto'|'sensitive', description, details)"""
     global SORT_FACTS
@@ -452,6 +491,8 @@ def classify(body, facts, bb, t, st):
             for e in eff:
                 if e[0] == 'mutate' and sorted_after_loop(body, e[3], lb):
                     notes.append('%s, sorted after the loop' % e[2])
+                elif e[0] == 'mutate' and e[2].startswith('push on ') and is_pure_worklist(body, facts, e[3]):
+                    notes.append('%s: a stack of pending work that is only pushed and popped, and whose popping loop does nothing order-sensitive' % e[2][:40])
                 else:
                     kept.append(e)
             eff = kept
